@@ -27,7 +27,7 @@ Views(ev) == [i \in 1..Len(ev.trees) |-> View(ev.trees[i])]
 RootedClass(Vs) == IF \E i \in 1..Len(Vs) : IsRooted(Vs[i]) THEN "rooted" ELSE "unrooted"
 
 \* kinds whose call must succeed on in-domain input
-MustSucceed == {"DistMatrix", "AvgMatrix", "TipBags", "Compare", "CompareRF", "CommonEdges", "CompareWeighted", "Consensus", "FBP", "TBE",
+MustSucceed == {"DistMatrix", "AvgMatrix", "TipBags", "Compare", "CompareRF", "CompareWeightedCLI", "CommonEdges", "CompareWeighted", "Consensus", "FBP", "TBE",
                 "Parsimony", "ParsimonySeq", "IndexOps", "HashPairs", "Quartets", "Generator", "Topologies", "Draws", "Shuffle"}
 \* kinds for which only "no crash, terminates" is claimed (degenerate sizes)
 OnlyTotal   == {"GeneratorTwoTips"}
@@ -40,6 +40,7 @@ Judge(ev, Vs) ==
     [] ev.kind = "TipBags"    -> F_TipBags(Vs[1], ev.args.thr, ev.res.bags)
     [] ev.kind = "Compare"    -> F_Compare(Vs[1], Vs[2], ev.args.tips, ev.args.identical, ev.res)
     [] ev.kind = "CommonEdges" -> F_CommonEdges(Vs[1], Vs[2], ev.args.tips, ev.res)
+    [] ev.kind = "CompareWeightedCLI" -> F_CompareWeightedCLI(Vs[1], Vs[2], ev.args.tips, ev.res)
     [] ev.kind = "CompareRF"  -> F_CompareRF(Vs[1], Vs[2], ev.args.tips, ev.res)
     [] ev.kind = "CompareWeighted" -> F_CompareWeighted(Vs[1], Vs[2], ev.args.tips, ev.res)
     [] ev.kind = "Consensus"  -> IF WellFormed(ev.out) THEN F_Consensus(Vs, ev.args.num, ev.args.den, View(ev.out), ev.res)
